@@ -98,3 +98,92 @@ def make_supercell(crys, S, interstitial=(), Nsolute=0):
         warnings.simplefilter('always')
         sup = supercell.Supercell(crys, S, interstitial=interstitial, Nsolute=Nsolute)
     return sup, sum(1 for x in w if 'Broken symmetry' in str(x.message))
+
+
+# ---------------------------------------------------------------- calculators (C29 / C30)
+def nndist(crys, chem):
+    """nearest-neighbour distance on the sublattice of chemistry `chem`"""
+    best = 1e99
+    for u in crys.basis[chem]:
+        for v in crys.basis[chem]:
+            for R in np.ndindex(3, 3, 3):
+                d = crys.lattice.dot(v - u + np.array(R) - 1)
+                x = float(np.sqrt(d.dot(d)))
+                if x > 1e-6: best = min(best, x)
+    return best
+
+
+def interstitial_zoo(rng, n_random=1):
+    """(name, crystal, chem of the interstitial sublattice)"""
+    from onsager import crystal
+    C = crystal.Crystal
+    out = []
+    fcc = C.FCC(1., chemistry='Ni')
+    out.append(('FCC+O', fcc.addbasis(fcc.Wyckoffpos(np.array([.5, .5, .5])), chemistry=['O']), 1))
+    out.append(('FCC+OT', fcc.addbasis(fcc.Wyckoffpos(np.array([.5, .5, .5])) + fcc.Wyckoffpos(np.array([.25, .25, .25])),
+                                       chemistry=['O']), 1))
+    bcc = C.BCC(1., chemistry='Fe')
+    out.append(('BCC+O', bcc.addbasis(bcc.Wyckoffpos(np.array([.5, .5, 0.])), chemistry=['C']), 1))
+    out.append(('BCC+OT', bcc.addbasis(bcc.Wyckoffpos(np.array([.5, .5, 0.])) + bcc.Wyckoffpos(np.array([.5, .25, .75])),
+                                       chemistry=['C']), 1))
+    hcp = C.HCP(1., chemistry='Ti')
+    out.append(('HCP+O', hcp.addbasis(hcp.Wyckoffpos(np.array([0., 0., 0.])), chemistry=['O']), 1))
+    out.append(('HCP+OT', hcp.addbasis(hcp.Wyckoffpos(np.array([0., 0., 0.])) + hcp.Wyckoffpos(np.array([1 / 3, 2 / 3, 5 / 8])),
+                                       chemistry=['O']), 1))
+    sc = C(np.eye(3), [np.zeros(3)], chemistry=['A'])
+    out.append(('SC+body', sc.addbasis(sc.Wyckoffpos(np.array([.5, .5, .5])), chemistry=['X']), 1))
+    out.append(('SC+face', sc.addbasis(sc.Wyckoffpos(np.array([.5, .5, 0.])), chemistry=['X']), 1))
+    b2 = C(np.eye(3), [[np.zeros(3)], [np.array([.5, .5, .5])]], chemistry=['A', 'B'])
+    out.append(('B2+face', b2.addbasis(b2.Wyckoffpos(np.array([.5, .5, 0.])), chemistry=['X']), 2))
+    tet = C(np.diag([1., 1., 1.4]), [np.zeros(3)], chemistry=['A'])
+    out.append(('tetragonal+edge', tet.addbasis(tet.Wyckoffpos(np.array([.5, 0., 0.])), chemistry=['X']), 1))
+    for k in range(n_random):
+        while True:
+            L = np.eye(3) + np.array([[rng.uniform(-.25, .25) if i != j else rng.uniform(0., .4) for j in range(3)]
+                                      for i in range(3)])
+            if abs(np.linalg.det(L)) > 0.5: break
+        pts = set()
+        while len(pts) < 3:
+            pts.add(tuple(rng.randrange(6) / 6 for _ in range(3)))
+        pts = [np.array(p) for p in sorted(pts)]
+        out.append(('tric+i%d' % k, C(L, [[pts[0]], pts[1:]], chemistry=['A', 'X'], noreduce=True), 1))
+    return out
+
+
+def vacancy_zoo(rng):
+    """(name, crystal, chem of the sublattice on which the vacancy moves)"""
+    Z = dict((n, c) for n, c, i in zoo(rng, n_random=0))
+    names = ['FCC', 'BCC', 'HCP', 'SC', 'B2', 'diamond', 'zincblende', 'hex-layer', 'honeycomb-layer', 'tetragonal',
+             'mono', 'ortho-2']
+    return [(n, Z[n], 0) for n in names]
+
+
+_CALCS = {}
+
+
+def interstitial_calc(name, crys, chem, cutfac=1.01):
+    from onsager import OnsagerCalc
+    key = ('I', name, cutfac)
+    if key not in _CALCS:
+        sl = crys.sitelist(chem)
+        jn = crys.jumpnetwork(chem, nndist(crys, chem) * cutfac)
+        _CALCS[key] = OnsagerCalc.Interstitial(crys, chem, sl, jn)
+    return _CALCS[key]
+
+
+def vacancy_calc(name, crys, chem, Nthermo=1, cutfac=1.01):
+    from onsager import OnsagerCalc
+    key = ('V', name, Nthermo, cutfac)
+    if key not in _CALCS:
+        sl = crys.sitelist(chem)
+        jn = crys.jumpnetwork(chem, nndist(crys, chem) * cutfac)
+        _CALCS[key] = OnsagerCalc.VacancyMediated(crys, chem, sl, jn, Nthermo)
+    return _CALCS[key]
+
+
+def makesupercells(calc, S):
+    """(superdict, list of warning texts) - every warning issued by the call is captured"""
+    with warnings.catch_warnings(record=True) as w:
+        warnings.simplefilter('always')
+        sd = calc.makesupercells(S)
+    return sd, [str(x.message) for x in w if issubclass(x.category, RuntimeWarning)]
